@@ -194,6 +194,14 @@ def build_service(rec, behaviours=None):
             }[how])
             return how
 
+        @rpc(Integer, Unicode, _returns=Unicode)
+        def redirect(ctx, code, where):
+            # the method sends the client elsewhere (over HTTP: a 3xx answer written by the transport, not by the output protocol)
+            from spyne.server.http import HttpRedirect
+            from spyne.const import http as H
+            rec.enter('redirect', code, where)
+            raise HttpRedirect(ctx, where or 'http://example.com/elsewhere?a=1&b=%C3%A9', code=getattr(H, 'HTTP_%d' % code))
+
         @rpc(Unicode, Unicode, _returns=Integer)
         def fail(ctx, code, msg):
             rec.enter('fail', code, msg)
